@@ -4,27 +4,6 @@ From RV Require Import Prelude.
 From Ctc Require Import ModelCtc Greedy_proofs Beam_proofs.
 Open Scope N_scope.
 
-Definition hd_is (l : list nat) (c : nat) : bool :=
-  match l with c' :: _ => Nat.eqb c' c | [] => false end.
-
-(* forward variables; frames and labels most recent first.
-   fst: alignments of the frames that collapse to l and end in a blank (or are empty)
-   snd: ... and end in a non-blank *)
-Fixpoint alpha (rm : list row) (l : list nat) : N * N :=
-  match rm with
-  | [] => (match l with [] => 1 | _ => 0 end, 0)
-  | r :: rm' =>
-      let a := alpha rm' l in
-      ((fst a + snd a) * wt r 0,
-       match l with
-       | [] => 0
-       | c :: l0 =>
-           let a0 := alpha rm' l0 in
-           (snd a + fst a0 + (if hd_is l0 c then 0 else snd a0)) * wt r c
-       end)
-  end.
-Definition alpha_tot (rm : list row) (l : list nat) : N := fst (alpha rm l) + snd (alpha rm l).
-
 Definition ind (b : bool) (w : N) : N := if b then w else 0.
 Definition blank_ended (p : list nat) : bool := match p with [] => true | s :: _ => Nat.eqb s 0 end.
 Definition Sb (L : nat) (rm : list row) (l : list nat) : N :=
@@ -206,4 +185,32 @@ Qed.
 Theorem alpha_exact L rm l : (1 <= L)%nat -> valid L l -> alpha_tot rm l = exact_r L rm l.
 Proof.
   intros HL V. unfold alpha_tot. rewrite (alpha_split L HL rm l V), exact_r_split. reflexivity.
+Qed.
+
+(* ---------------- the dynamic program computes the same forward variables ---------------- *)
+Lemma tails_length l : length (tails l) = S (length l).
+Proof. induction l as [|c l IH]; cbn; [reflexivity|]. rewrite IH. reflexivity. Qed.
+
+Lemma tails_hd l : exists ts, tails l = l :: ts.
+Proof. destruct l; cbn; eauto. Qed.
+
+Lemma arow_step_spec r rm : forall l,
+  arow_step r l (map (alpha rm) (tails l)) = map (alpha (r :: rm)) (tails l).
+Proof.
+  induction l as [|c l0 IH].
+  - reflexivity.
+  - cbn [tails map]. destruct (tails_hd l0) as [ts Et]. rewrite Et in IH |- *.
+    cbn [map] in IH |- *. cbn [arow_step]. f_equal. exact IH.
+Qed.
+
+Lemma alpha_row_spec rm l : alpha_row rm l = map (alpha rm) (tails l).
+Proof.
+  induction rm as [|r rm IH]; cbn [alpha_row].
+  - apply map_ext. intros t. reflexivity.
+  - rewrite IH. apply arow_step_spec.
+Qed.
+
+Theorem alpha_dp_spec rm l : alpha_dp rm l = alpha_tot rm l.
+Proof.
+  unfold alpha_dp. rewrite alpha_row_spec. destruct l; reflexivity.
 Qed.
